@@ -183,6 +183,7 @@ var versions = []struct {
 	Verdict string
 }{
 	{"4.0.0", vValid}, {"5.0.0", vValid}, {"5.1.0-alpha", vValid}, {"4.0.9", vValid}, {"3.1.0-beta.2", vValid},
+	{"2.1.17", vValid}, {"6.0.0", vValid}, {"0.0.1", vValid}, {"5.0.0-rc.1", vValid},
 	{"v5.0.0", vEither}, {"", vEither}, // accepted spellings outside plain semver
 	{"abc", vReject}, {"5.x", vReject}, {"1.2", vReject}, {"5.0.0.1", vReject},
 }
@@ -565,6 +566,41 @@ func actualRule(fx *livesrv.Fixture) (ruleView, bool) {
 
 const msgRuleInconsistent = "default rules do not consistent"
 
+// restartedRule is the default rule a restarted server would serve: a new rule manager over the cluster
+// storage (below the fault wrapper), initialised the way RaftCluster.Start does.
+func restartedRule(fx *livesrv.Fixture) (ruleView, error) {
+	rm := placement.NewRuleManager(core.NewStorage(fx.ClusterBase()), nil)
+	if err := rm.Initialize(3, nil); err != nil {
+		return ruleView{}, err
+	}
+	r := rm.GetRule("pd", "default")
+	if r == nil {
+		return ruleView{}, fmt.Errorf("no default rule in storage")
+	}
+	shape := plainShape
+	if r.Role != placement.Voter || len(r.StartKeyHex) > 0 || len(r.EndKeyHex) > 0 || len(r.LabelConstraints) > 0 || r.IsolationLevel != "" {
+		shape = fmt.Sprintf("%s/%s..%s/%d constraints/%s", r.Role, r.StartKeyHex, r.EndKeyHex, len(r.LabelConstraints), r.IsolationLevel)
+	}
+	return ruleView{Count: r.Count, Labels: strings.Join(r.LocationLabels, ","), Shape: shape}, nil
+}
+
+// ruleServedVsStored: what the rule manager serves for pd/default must be what is stored (what a restart loads),
+// after an accepted update and after a failed / rolled back one alike.
+func ruleServedVsStored(fx *livesrv.Fixture) string {
+	ra, ok := actualRule(fx)
+	if !ok {
+		return ""
+	}
+	rs, err := restartedRule(fx)
+	if err != nil {
+		return "the stored rules cannot be loaded: " + err.Error()
+	}
+	if ra != rs {
+		return fmt.Sprintf("the rule manager serves the default rule %v, a restarted one loads %v from storage", ra, rs)
+	}
+	return ""
+}
+
 // opFault numbers ALL storage writes of one update in the order they happen — the writes to the server's
 // configuration storage (s.storage, swapped per case) and the writes the update's own goroutine issues to
 // the cluster-level storage (replication-mode manager: SaveReplicationStatus; placement rule manager:
@@ -625,6 +661,7 @@ type prepared struct {
 	why       string // reason for must-reject
 	section   int    // index of the section the update targets
 	wantJSON  string // what the section must serve once accepted ("" = not checked)
+	wantAlt   string // an equally good outcome: the replication mode stored in its canonical spelling
 	desc      string
 	knownSkip bool // fault injection would hit the known label-rollback class
 	httpKnown bool // goes through POST /config/replication-mode: fault injection would hit the known merge-into-served class
@@ -702,6 +739,9 @@ func prepare(fx *livesrv.Fixture, op Op) (*prepared, error) {
 		}
 		p.section, p.desc = 5, "SetReplicationModeConfig(served + "+pt.JSON+")"
 		p.wantJSON = mustJSON(&cur)
+		canon := cur
+		canon.ReplicationMode = strings.ReplaceAll(strings.ToLower(cur.ReplicationMode), "_", "-")
+		p.wantAlt = mustJSON(&canon)
 		arg := cur
 		p.call = func() error { return s.SetReplicationModeConfig(arg) }
 		if d := domainViolation(nil, nil, nil, cur.ReplicationMode); d != "" {
@@ -830,6 +870,28 @@ func runOnce(c Case) (vkit.Info, error) {
 	})
 	fx.ClusterGate(func(kind, key string) error { return of.write("cluster") })
 	defer fx.ClusterGate(nil)
+	// A long-lived second PersistOptions: the copy of a member that has been around (it reloaded every earlier
+	// accepted image, as a member does each time it becomes leader). When it "becomes leader" again its Reload
+	// must bring EVERY section to the last accepted image, also when a value went down (cluster version lowered,
+	// limits reduced, labels removed) — not only when starting from pristine defaults.
+	var member *config.PersistOptions
+	if def := config.NewConfig(); def.Adjust(nil, false) == nil {
+		member = config.NewPersistOptions(def)
+	}
+	memberTakesOver := func(where string) error {
+		if member == nil {
+			return nil
+		}
+		if err := member.Reload(core.NewStorage(w.Base())); err != nil {
+			return vkit.Errf("%s: Reload on a long-lived member: %v", where, err)
+		}
+		got := snap{mustJSON(member.GetScheduleConfig().Clone()), mustJSON(member.GetReplicationConfig()), mustJSON(member.GetPDServerConfig()),
+			mustJSON(member.GetLabelPropertyConfig()), mustJSON(member.GetClusterVersion()), mustJSON(member.GetReplicationModeConfig())}
+		if d := diffSnap(normalise(fx), got); d != "" {
+			return vkit.Errf("%s: a long-lived member that reloaded the earlier images takes over, and after its Reload it does not serve the last accepted image (served by the leader, normalised => served by the new leader): %s", where, d)
+		}
+		return nil
+	}
 	classes := map[string]bool{}
 	accepted, rejected, failed := 0, 0, 0
 	// model of the default rule: ResetConfig set it to the base replication section; afterwards it follows
@@ -939,6 +1001,9 @@ func runOnce(c Case) (vkit.Info, error) {
 			if r := defaultRuleJSON(); r != beforeRule {
 				return vkit.Errf("%s %s (%v) but the default placement rule changed: %s => %s", where, what, err, beforeRule, r)
 			}
+			if d := ruleServedVsStored(fx); d != "" {
+				return vkit.Errf("%s %s (%v) and afterwards %s", where, what, err, d)
+			}
 			return nil
 		}
 		var cleanErr error
@@ -997,6 +1062,12 @@ func runOnce(c Case) (vkit.Info, error) {
 		}
 		if d := servedDomainViolation(fx); d != "" {
 			return vkit.Errf("%s accepted; the served configuration is outside its domain: %s", where, d)
+		}
+		if e := memberTakesOver(where + " accepted"); e != nil {
+			return e
+		}
+		if d := ruleServedVsStored(fx); d != "" {
+			return vkit.Errf("%s accepted; %s", where, d)
 		}
 		if ra, ok := actualRule(fx); ok {
 			if hasDefault && uint64(ra.Count) != fx.Svr.GetReplicationConfig().MaxReplicas {
@@ -1095,7 +1166,7 @@ func runOnce(c Case) (vkit.Info, error) {
 		if e := fx.Svr.GetPersistOptions().Persist(core.NewStorage(w.Base())); e != nil {
 			return fmt.Errorf("harness: %v", e)
 		}
-		return nil
+		return memberTakesOver(where + " accepted")
 	}
 	for step, op := range c.Ops {
 		if op.Kind == "storelimit" {
@@ -1165,6 +1236,11 @@ func runOnce(c Case) (vkit.Info, error) {
 					if d := managerDisagrees(fx); d != "" {
 						return info, vkit.Errf("%s: write %d of the update failed (error returned: %v) and %s", where, n, err, d)
 					}
+					if op.Kind == "replication" {
+						if d := ruleServedVsStored(fx); d != "" {
+							return info, vkit.Errf("%s: write %d of the update (to the %s storage) failed (error returned: %v) and afterwards %s", where, n, on, err, d)
+						}
+					}
 					if op.Kind == "replication" && ruleOK {
 						if ra, ok := actualRule(fx); ok && ra != ruleBefore {
 							if !vkit.Known(findingRuleLabels) {
@@ -1225,6 +1301,11 @@ func runOnce(c Case) (vkit.Info, error) {
 			if d := managerDisagrees(fx); d != "" {
 				return info, vkit.Errf("%s was rejected (%v) and %s", where, cleanErr, d)
 			}
+			if op.Kind == "replication" {
+				if d := ruleServedVsStored(fx); d != "" {
+					return info, vkit.Errf("%s was rejected (%v) and afterwards %s", where, cleanErr, d)
+				}
+			}
 			if !fx.Healthy() {
 				livesrv.Fatal("C18: server lost leadership / cluster stopped during a case")
 			}
@@ -1238,6 +1319,9 @@ func runOnce(c Case) (vkit.Info, error) {
 				shape := ruleModel.Shape // the setter rewrites count and labels only
 				ruleModel = viewOfConfig(now)
 				ruleModel.Shape = shape
+			}
+			if d := ruleServedVsStored(fx); d != "" {
+				return info, vkit.Errf("%s accepted; %s", where, d)
 			}
 			if ra, ok := actualRule(fx); ok && ra != ruleModel && !vkit.Known(findingRuleLabels) {
 				return info, vkit.Errf("%s accepted; the default placement rule is %v, expected %v (replication section %s)", where, ra, ruleModel, after[1])
@@ -1253,7 +1337,7 @@ func runOnce(c Case) (vkit.Info, error) {
 		}
 		for i := range after {
 			if i == p.section {
-				if p.wantJSON != "" && after[i] != p.wantJSON {
+				if p.wantJSON != "" && after[i] != p.wantJSON && !(p.wantAlt != "" && after[i] == p.wantAlt) {
 					return info, vkit.Errf("%s accepted but section %s serves %s, requested %s", where, sectionNames[i], after[i], p.wantJSON)
 				}
 			} else if after[i] != before[i] {
@@ -1271,6 +1355,9 @@ func runOnce(c Case) (vkit.Info, error) {
 		}
 		if d := managerDisagrees(fx); d != "" {
 			return info, vkit.Errf("%s accepted but %s", where, d)
+		}
+		if e := memberTakesOver(where + " accepted"); e != nil {
+			return info, e
 		}
 		for i := range want {
 			if want[i] != after[i] {
@@ -1523,7 +1610,7 @@ func applyChecked(fx *livesrv.Fixture, op Op, where string) (accepted bool, err 
 	}
 	for i := range after {
 		if i == p.section {
-			if p.wantJSON != "" && after[i] != p.wantJSON {
+			if p.wantJSON != "" && after[i] != p.wantJSON && !(p.wantAlt != "" && after[i] == p.wantAlt) {
 				return true, vkit.Errf("%s accepted but section %s serves %s, requested %s", where, sectionNames[i], after[i], p.wantJSON)
 			}
 		} else if after[i] != before[i] {
